@@ -42,6 +42,9 @@ def parse_set(s: str):
     return out
 
 
+MH_SEQ_FLAGS = {"flagged": "\\Flagged", "replied": "\\Answered", "Draft": "\\Draft"}
+
+
 def unstorable(flags: str) -> bool:
     """Keywords an MH folder can not hold (':' separates name and messages in .mh_sequences, which is an ASCII file): the server
     may refuse them -- without any effect -- or find a way to store them."""
@@ -787,17 +790,17 @@ class HState:
         for i in range(n):
             cid = ev["cids"][i] if ev.get("cids") else f"d{self.step}x{i}"
             idn = 5000 + self.step * 10 + i
-            self.w.deliver(folder, msgs.make(cid, crlf=False), unseen=unseen, mtime=msgs.idate_epoch(idn))
-            self.model.deliver(name, cid, unseen, msgs.idate_epoch(idn))
-        self.log(f"ENV: deliver {n} to {name} unseen={unseen}")
+            self.w.deliver(folder, msgs.make(cid, crlf=False), unseen=unseen, mtime=msgs.idate_epoch(idn), seqs=ev.get("seqs", ()))
+            self.model.deliver(name, cid, unseen, msgs.idate_epoch(idn), flags=[MH_SEQ_FLAGS[q] for q in ev.get("seqs", ())])
+        self.log(f"ENV: deliver {n} to {name} unseen={unseen}" + (f" sequences={list(ev['seqs'])}" if ev.get("seqs") else ""))
 
     def _promote_latent(self, name: str):
         """A same-second delivery becomes part of the reference store (the server has shown to know it,
         or the folder's mtime is about to advance)."""
         mb = self.model.mboxes.get(canon_name(name))
-        for cid, unseen, idate in self.latent_msgs.pop(canon_name(name), []):
+        for cid, unseen, idate, fl in self.latent_msgs.pop(canon_name(name), []):
             if mb is not None and all(m.cid != cid for m in mb.msgs):
-                self.model.deliver(name, cid, unseen, idate)
+                self.model.deliver(name, cid, unseen, idate, flags=fl)
 
     def ev_latent(self, ev):
         """Composite: an MH agent delivers within the second of the folder's current mtime (so the
@@ -808,9 +811,9 @@ class HState:
         unseen = ev.get("unseen", True)
         cid = f"L{self.step}"
         idate = msgs.idate_epoch(7000 + self.step)
-        self.w.deliver(folder, msgs.make(cid, crlf=False), unseen=unseen, mtime=idate, tick=False)
-        self.latent_msgs.setdefault(name, []).append((cid, unseen, idate))
-        self.log(f"ENV: deliver 1 to {name} unseen={unseen} within the second of the folder's mtime")
+        self.w.deliver(folder, msgs.make(cid, crlf=False), unseen=unseen, mtime=idate, tick=False, seqs=ev.get("seqs", ()))
+        self.latent_msgs.setdefault(name, []).append((cid, unseen, idate, [MH_SEQ_FLAGS[q] for q in ev.get("seqs", ())]))
+        self.log(f"ENV: deliver 1 to {name} unseen={unseen} within the second of the folder's mtime" + (f" sequences={list(ev['seqs'])}" if ev.get("seqs") else ""))
         inner = ev["then"]
         if inner["s"] == "env":
             # time passes before the mtime advances: the management task's idle branch (resync that does not look, pack) runs
